@@ -38,6 +38,19 @@ type c12ArrResult struct {
 	Stuck     string `json:"stuck,omitempty"`
 }
 
+// c12OnlyEpoch0Handshake: every record of the datagram is a DTLSPlaintext handshake record of epoch 0.
+func c12OnlyEpoch0Handshake(d []byte) bool {
+	off := 0
+	for off+13 <= len(d) {
+		if d[off] != 22 || d[off+3] != 0 || d[off+4] != 0 {
+			return false
+		}
+		off += 13 + (int(d[off+11])<<8 | int(d[off+12]))
+	}
+
+	return off == len(d)
+}
+
 func runC12Arrival(idx int, cs *c12ArrCase) (res c12ArrResult) {
 	res = c12ArrResult{Case: idx, Name: cs.Name}
 	rng := rand.New(rand.NewSource(cs.Seed)) //nolint:gosec
@@ -80,6 +93,19 @@ func runC12Arrival(idx int, cs *c12ArrCase) (res c12ArrResult) {
 			}
 			moved = true
 			res.Datagrams += len(batch)
+			// DTLS 1.2: the ChangeCipherSpec and the records behind it are not handshake fragments of epoch 0 - what a receiver does
+			// with a record of an epoch it has no keys for yet (buffer or discard, RFC 6347 4.1) is not C12's subject: only the
+			// leading datagrams that consist of epoch-0 handshake records are permuted, the rest keeps its place behind them
+			tail := []int(nil)
+			if cs.Scen.Ver == "12" {
+				for i, k := range batch {
+					if !c12OnlyEpoch0Handshake(r.net.Data(dir, k)) {
+						batch, tail = batch[:i], append([]int(nil), batch[i:]...)
+
+						break
+					}
+				}
+			}
 			if len(batch) > 1 {
 				res.Batches++
 				switch cs.Order {
@@ -94,7 +120,7 @@ func runC12Arrival(idx int, cs *c12ArrCase) (res c12ArrResult) {
 					rng.Shuffle(len(batch), func(i, j int) { batch[i], batch[j] = batch[j], batch[i] })
 				}
 			}
-			for _, k := range batch {
+			for _, k := range append(batch, tail...) {
 				r.net.Deliver(dir, k)
 				if !r.waitQuiet(3 * time.Second) {
 					res.Lab = "not quiescent after a delivery"
@@ -108,6 +134,11 @@ func runC12Arrival(idx int, cs *c12ArrCase) (res c12ArrResult) {
 		}
 	}
 	res.Completed = estOf(r.c) && estOf(r.s)
+	if !res.Completed && res.Stuck == "" {
+		cst, _ := r.c.state.Load().(string)
+		sst, _ := r.s.state.Load().(string)
+		res.Stuck = fmt.Sprintf("client %s in %s, server %s in %s", cst, r.c.flightTag(), sst, r.s.flightTag())
+	}
 	select {
 	case <-r.c.hsDone:
 		res.CErr = errString(r.c.hsErr)
